@@ -7,12 +7,12 @@ Open Scope N_scope.
 
 (* ===================== (a) the binary stream codec ===================== *)
 
-(* Any sequence of objects (of any size), strings and vectors of 8-byte elements written to an empty
+(* Any sequence of objects (of any size), strings and vectors (of any element size) written to an empty
    stream produces exactly the documented format, and reading the same sequence of types from
    output_buffer()[0..length()) delivers exactly the values written, ends at the end of the data in
    the good state, and never touches a byte outside the buffer. *)
 Theorem C11_stream_roundtrip : forall (l : list item) (mx : N),
-  Forall item_ok l -> Forall vec8 l -> blen (enc_all l) <= mx -> blen (enc_all l) < W64 ->
+  Forall item_ok l -> blen (enc_all l) <= mx -> blen (enc_all l) < W64 ->
   let w := write_items (empty_stream mx) l in
   output w = (enc_all l, false) /\ good w = true /\ ms_oob w = false /\
   exists s', read_items (input_stream (fst (output w))) (map shape_of l) = (l, s', true)
@@ -36,56 +36,27 @@ Theorem C11_string_roundtrip : forall (b : list byte) (mx : N), 8 + blen b <= mx
 Proof. exact string_roundtrip. Qed.
 Print Assumptions C11_string_roundtrip.
 
-(* The property text: "every value type the binary stream accepts is read back exactly as written".
-   Full statement for vectors (every element size sz = sizeof(T)):
-
-     Theorem C11_vector_roundtrip : forall sz es mx, item_ok (IVec sz es) -> 8 + sz * blen es <= mx ->
-       let w := write_vector (empty_stream mx) sz es in
-       output w = (enc (IVec sz es), false) /\
-       fst (read_vector (input_stream (fst (output w))) sz) = RVec es.
-
-   It is FALSE of the code: write_vector advances the cursor by sizeof(T) after the 8-byte length. *)
-Theorem C11_vector_roundtrip_refuted : exists (sz : N) (es : list (list byte)),
-  item_ok (IVec sz es) /\
-  let w := write_vector (empty_stream DEFAULT_MAX) sz es in
-  fst (output w) <> enc (IVec sz es) /\
-  fst (read_vector (input_stream (fst (output w))) sz) <> RVec es.
-Proof.
-  exists 4, [[1;0;0;0]; [2;0;0;0]; [3;0;0;0]; [4;0;0;0]; [5;0;0;0]].
-  split.
-  - cbn [item_ok]. split; [lia|]. split; [repeat constructor|]. vm_compute. discriminate.
-  - split; vm_compute; discriminate.
-Qed.
-Print Assumptions C11_vector_roundtrip_refuted.
-
-Theorem C11_vector_roundtrip_partial : forall (es : list (list byte)) (mx : N),
-  Forall (fun e => blen e = 8) es -> 8 * blen es <= PTRDIFF_MAX -> 8 + 8 * blen es <= mx ->
-  let w := write_vector (empty_stream mx) 8 es in
+(* The property text: "every value type the binary stream accepts is read back exactly as written":
+   vectors of every element size sz = sizeof(T).  (Refuted on the pinned tree for sz <> 8: write_vector
+   advanced the cursor by sizeof(T) after the 8-byte length; repaired by a fix: commit, see known_findings.txt.) *)
+Theorem C11_vector_roundtrip : forall (sz : N) (es : list (list byte)) (mx : N),
+  item_ok (IVec sz es) -> 8 + sz * blen es <= mx ->
+  let w := write_vector (empty_stream mx) sz es in
   output w = (le64 (blen es) ++ concat es, false) /\
-  exists s', read_vector (input_stream (fst (output w))) 8 = (RVec es, s')
+  exists s', read_vector (input_stream (fst (output w))) sz = (RVec es, s')
              /\ good s' = true /\ ms_pos s' = ms_len s'.
-Proof. exact vector8_roundtrip. Qed.
-Print Assumptions C11_vector_roundtrip_partial.
+Proof. exact vector_roundtrip. Qed.
+Print Assumptions C11_vector_roundtrip.
 
-(* "... or touching memory out of bounds": full statement for writers
-
-     Theorem C11_write_cursor_in_buffer : forall sz es mx, item_ok (IVec sz es) ->
-       let w := write_vector (empty_stream mx) sz es in ms_len w <= blen (ms_buf w) /\ ms_oob w = false.
-
-   FALSE for sizeof(T) > 8: length() exceeds the buffer (empty vector), and with one element the
-   second memcpy stores 16 bytes past the end of the buffer. *)
-Theorem C11_write_cursor_in_buffer_refuted :
-  (exists (sz : N) (es : list (list byte)), item_ok (IVec sz es) /\
-     blen (ms_buf (write_vector (empty_stream DEFAULT_MAX) sz es)) < ms_len (write_vector (empty_stream DEFAULT_MAX) sz es)) /\
-  (exists (sz : N) (es : list (list byte)), item_ok (IVec sz es) /\
-     ms_oob (write_vector (empty_stream DEFAULT_MAX) sz es) = true).
-Proof.
-  split.
-  - exists 24, []. split; [cbn [item_ok]; split; [lia|]; split; [constructor|vm_compute; discriminate] | vm_compute; reflexivity].
-  - exists 24, [[0;1;2;3;4;5;6;7;8;9;10;11;12;13;14;15;16;17;18;19;20;21;22;23]].
-    split; [cbn [item_ok]; split; [lia|]; split; [repeat constructor|vm_compute; discriminate] | vm_compute; reflexivity].
-Qed.
-Print Assumptions C11_write_cursor_in_buffer_refuted.
+(* "... or touching memory out of bounds", writers: the cursor of write_vector stays inside the buffer and
+   no byte is stored outside it, for every element size, whether or not the data fits under max_length.
+   (Refuted on the pinned tree for sizeof(T) > 8; same fix: commit.) *)
+Theorem C11_write_cursor_in_buffer : forall (sz : N) (es : list (list byte)) (mx : N),
+  item_ok (IVec sz es) ->
+  let w := write_vector (empty_stream mx) sz es in
+  ms_len w <= blen (ms_buf w) /\ ms_oob w = false.
+Proof. exact write_cursor_in_buffer. Qed.
+Print Assumptions C11_write_cursor_in_buffer.
 
 (* Every read, whatever the bytes and whatever sequence of reads (objects of any size, strings,
    vectors of any element size, continuing after failures), touches only bytes of the buffer and
@@ -96,28 +67,21 @@ Theorem C11_reads_in_bounds : forall (buf : list byte) (l : list shape), blen bu
 Proof. exact reads_in_bounds. Qed.
 Print Assumptions C11_reads_in_bounds.
 
-(* "Loading a ... malformed ... binary state terminates without crashing": full statement
-
-     Theorem C11_vector_alloc_bounded : forall buf sz n, 0 < sz ->
-       fst (read_vector (input_stream buf) sz) <> RThrow n
-     (a vector read never asks std::vector::resize for more elements than the bytes that remain).
-
-   FALSE: the product length * sizeof(T) is taken mod 2^64 before the bound check. *)
-Theorem C11_vector_alloc_bounded_refuted : exists (buf : list byte) (sz n : N),
-  0 < sz /\ fst (read_vector (input_stream buf) sz) = RThrow n /\ blen buf < n * sz.
-Proof.
-  exists (le64 2305843009213693952), 8, 2305843009213693952.
-  split; [lia|]. split; vm_compute; reflexivity.
-Qed.
-Print Assumptions C11_vector_alloc_bounded_refuted.
-
-(* partial: on a buffer that fits in memory the reader throws ONLY when the product wraps;
-   strings (element size 1) never throw *)
-Theorem C11_vector_alloc_bounded_partial : forall (s : mstream) (sz n : N),
+(* "Loading a ... malformed ... binary state terminates without crashing": on a buffer that fits in memory
+   (at most PTRDIFF_MAX bytes, as every C++ object) a vector read never asks std::vector::resize for more
+   than max_size() elements (no std::length_error), whatever the bytes; and when it delivers n elements,
+   the 8 + n * sizeof(T) bytes were there.  (Refuted on the pinned tree by a length prefix of 2^61 with
+   sizeof(T) = 8: the byte count wrapped to 0; repaired by a fix: commit.) *)
+Theorem C11_vector_alloc_bounded : forall (s : mstream) (sz : N),
   rinv s -> ms_len s <= PTRDIFF_MAX -> 0 < sz ->
-  fst (read_vector s sz) = RThrow n -> W64 <= n * sz.
-Proof. exact read_vector_throw_only_by_wrap. Qed.
-Print Assumptions C11_vector_alloc_bounded_partial.
+  (forall n, fst (read_vector s sz) <> RThrow n) /\
+  (forall v s', read_vector s sz = (RVec v, s') -> blen v * sz + 8 <= ms_len s - ms_pos s).
+Proof.
+  intros s sz H Hm Hz. split.
+  - intros n. now apply read_vector_never_throws.
+  - intros v s'. now apply read_vector_alloc_bounded.
+Qed.
+Print Assumptions C11_vector_alloc_bounded.
 
 Theorem C11_string_read_never_throws : forall (s : mstream) (n : N), fst (read_string s) <> RThrow n.
 Proof. exact read_string_never_throws. Qed.
@@ -146,6 +110,26 @@ Theorem C11_crash_consistent_one_process : forall (fs : fsys) (plan : list outco
 Proof. exact crash_consistent_one_process. Qed.
 Print Assumptions C11_crash_consistent_one_process.
 
+(* Error tolerance: the environment may, at EVERY file system call of every save (access, rename, open,
+   each write, close), succeed, return an error, or kill the process (a write persisting any prefix).
+   As long as the host stops saving after the first save that reports an error, the state file or its
+   .old backup holds a complete state at every point, from the first completed save on.  (Refuted on
+   the pinned tree: a failed rename and a failed last write/close were ignored; two fix: commits.) *)
+Theorem C11_error_tolerant : forall (fs : fsys) (plan : list outcome) (l : list saveop),
+  curok fs = true ->
+  let '(m', rs) := session_abort (start fs plan) l in
+  safe fs = true \/ completed rs = true -> safe (m_fs m') = true.
+Proof. exact error_tolerant. Qed.
+Print Assumptions C11_error_tolerant.
+
+(* No error return is swallowed: whatever the environment does, a save that reports success has left
+   the complete new state under the current name and no registered stream. *)
+Theorem C11_save_ok_is_complete : forall (m : mach) (v : N) (ch : list N) (tail : N) (m' : mach),
+  m_reg m = NotOpen -> curok (m_fs m) = true -> save m v ch tail = (m', Done true) ->
+  complete (cur (m_fs m')) = true /\ m_reg m' = NotOpen.
+Proof. intros m v ch tail m' H1 H2 H3. exact (save_ok_is_complete m v ch tail H1 H2 m' H3). Qed.
+Print Assumptions C11_save_ok_is_complete.
+
 (* The property text quantifies over fault sequences ("a crash at any instant ... from the moment the
    first state was completed"); full statement over several process lifetimes on the same directory:
 
@@ -154,7 +138,8 @@ Print Assumptions C11_crash_consistent_one_process.
        existsb (fun o => completed (fst o)) out = true -> safe fs' = true.
 
    FALSE of the code: a process that dies while writing leaves a partial <name>; the next process
-   renames that partial file over the only complete copy (<name>.old) before it writes anything. *)
+   renames that partial file over the only complete copy (<name>.old) before it writes anything.
+   (known_findings.txt: the repair is a change of protocol, write to a temporary name and rename.) *)
 Definition S100 (v : N) : saveop := mkS v [] 100.
 Theorem C11_crash_consistent_refuted : exists h : list (list saveop * list outcome)%type,
   Forall (fun sp => kills_only (snd sp) = true) h /\
@@ -175,31 +160,44 @@ Theorem C11_error_path_stuck_stream : forall (m : mach) (v : N) (ch : list N) (t
 Proof. exact stuck_stream. Qed.
 Print Assumptions C11_error_path_stuck_stream.
 
-(* Errors that the code does not look at break the invariant without any second crash:
-   (i) the last buffer is flushed inside close_output_stream() and its failure is ignored: the save
-       reports success on a truncated file, and the next save renames it over the good backup;
-   (ii) the result of backup_file()/rename is ignored by output_stream(): the only copy is truncated. *)
-Theorem C11_error_path_refuted :
-  (let '(m, rs) := session (start empty_fs [OOk; OOk; OOk; OOk;  OOk; OOk; OOk; OErr; OOk;  OOk; OOk; OKill 0])
-                           [S100 1; S100 2; S100 3] in
-   rs = [Done true; Done true; Dead] /\ safe (m_fs m) = false) /\
-  (let '(m, rs) := session (start empty_fs [OOk; OOk; OOk; OOk;  OOk; OErr; OOk; OKill 10]) [S100 1; S100 2] in
-   rs = [Done true; Dead] /\ safe (m_fs m) = false).
-Proof. split; vm_compute; split; reflexivity. Qed.
-Print Assumptions C11_error_path_refuted.
+(* Full statement of error tolerance for a host that goes on saving after a reported error:
+
+     Theorem C11_error_tolerant_continuing : forall fs plan l, curok fs = true ->
+       let '(m', rs) := session (start fs plan) l in safe fs = true \/ completed rs = true -> safe (m_fs m') = true.
+
+   FALSE of the code (same root cause as C11_crash_consistent_refuted): a save whose last write fails
+   reports the error but leaves the truncated file under the current name; the next save renames it
+   over the good backup, and a death before the new file is complete leaves no complete state. *)
+Theorem C11_error_tolerant_continuing_refuted :
+  let '(m, rs) := session (start empty_fs [OOk; OOk; OOk; OOk;  OOk; OOk; OOk; OErr; OOk;  OOk; OOk; OKill 0])
+                          [S100 1; S100 2; S100 3] in
+  rs = [Done true; Done false; Dead] /\ safe (m_fs m) = false.
+Proof. vm_compute. split; reflexivity. Qed.
+Print Assumptions C11_error_tolerant_continuing_refuted.
 
 (* non-vacuity *)
 Example C11_example_roundtrip :
-  let l := [IObj [1;2;3;4]; IStr [97;98;99]; IVec 8 [[1;0;0;0;0;0;0;0]; [2;0;0;0;0;0;0;0]]] in
-  Forall item_ok l /\ Forall vec8 l /\ blen (enc_all l) = 39 /\
+  let l := [IObj [1;2;3;4]; IStr [97;98;99]; IVec 8 [[1;0;0;0;0;0;0;0]; [2;0;0;0;0;0;0;0]]; IVec 3 [[1;2;3]; [4;5;6]]] in
+  Forall item_ok l /\ blen (enc_all l) = 53 /\
   fst (fst (read_items (input_stream (enc_all l)) (map shape_of l))) = l.
 Proof.
-  cbv zeta. split; [|split; [|split]].
+  cbv zeta. split; [|split].
   - repeat constructor; cbn [item_ok]; try lia; vm_compute; discriminate.
-  - repeat constructor.
   - vm_compute. reflexivity.
   - vm_compute. reflexivity.
 Qed.
+
+(* premises of C11_vector_alloc_bounded: every input stream over a buffer that fits in memory *)
+Example C11_example_rinv : forall buf : list byte, blen buf <= PTRDIFF_MAX ->
+  rinv (input_stream buf) /\ ms_len (input_stream buf) <= PTRDIFF_MAX.
+Proof.
+  intros buf H. unfold rinv, input_stream. cbn [ms_len ms_buf ms_pos ms_oob].
+  repeat split; auto; unfold PTRDIFF_MAX, W64 in *; lia.
+Qed.
+(* the former witness: length prefix 2^61, element size 8 *)
+Example C11_example_huge_length :
+  fst (read_vector (input_stream (le64 2305843009213693952)) 8) = RNone.
+Proof. vm_compute. reflexivity. Qed.
 
 Example C11_example_truncation :
   let l := [IStr [97;98;99]] in
@@ -211,4 +209,12 @@ Example C11_example_protocol :
   let '(m, rs) := session (start empty_fs [OOk; OOk; OOk; OOk; OOk; OOk; OOk; OKill 10]) [S100 1; S100 2] in
   curok empty_fs = true /\ rs = [Done true; Dead] /\ completed rs = true /\ safe (m_fs m) = true /\
   m_trace m = [SAccess; SOpen; SWrite 100; SClose; SAccess; SRename; SOpen; SWrite 100].
+Proof. vm_compute. repeat split; reflexivity. Qed.
+
+(* error tolerance is not vacuous: an error return in the rename of the second save, then a kill in the
+   third: the second save reports the error, the host stops, both earlier states are intact *)
+Example C11_example_error_tolerant :
+  let '(m, rs) := session_abort (start empty_fs [OOk; OOk; OOk; OOk;  OOk; OErr]) [S100 1; S100 2; S100 3] in
+  rs = [Done true; Done false] /\ completed rs = true /\ safe (m_fs m) = true /\
+  m_trace m = [SAccess; SOpen; SWrite 100; SClose; SAccess; SRename].
 Proof. vm_compute. repeat split; reflexivity. Qed.
